@@ -105,7 +105,7 @@ Section Sim.
   Qed.
 
   Definition strel (s1 s2 : st) : Prop :=
-    once s1 = once s2 /\ starved s1 = starved s2
+    once s1 = once s2 /\ too_deep s1 = too_deep s2
     /\ filter (not_k K) (taken s1) = filter (not_k K) (taken s2)
     /\ agree M (env s1) (env s2).
 
@@ -186,13 +186,11 @@ Section Sim.
   Ltac fin EK :=
     unfold strel; simpl; unfold not_k; rewrite ?EK; simpl; repeat split; auto; try (f_equal; assumption).
 
-  Ltac bad_contra :=
-    match goal with
-    | H : bad (set_bad _) = false |- _ => discriminate H
-    | H : bad (record _ (set_bad _)) = false |- _ => discriminate H
-    | H : bad (add_macro _ (set_bad _)) = false |- _ => discriminate H
-    | H : bad (del_macro _ (set_bad _)) = false |- _ => discriminate H
-    | H : bad (add_once _ (set_bad _)) = false |- _ => discriminate H
+  Ltac kill B :=
+    simpl in B;
+    match type of B with
+    | bad (if ?b then _ else _) = false => destruct b; simpl in B; discriminate B
+    | _ => discriminate B
     end.
 
   Lemma step_sim : forall cur l stk1 s1 stk2 s2,
@@ -220,18 +218,18 @@ Section Sim.
           rewrite Ev. split.
           -- apply sr_eq. apply nok_cons; [simpl; try rewrite EK; auto|exact Hn].
           -- destruct (active stk && eval opq (env s2) c); fin EK.
-      + simpl in *. rewrite K1 in B1. destruct (on f1 && eval opq (env (set_bad s1)) c); simpl in B1; discriminate B1.
+      + simpl in *. rewrite K1 in B1. kill B1.
     - (* LElif *)
       simpl in *.
       destruct (stkrel_inv _ _ Hstk) as [[E Hn]|(f1 & f2 & r & E1 & E2 & K1 & K2 & Hp & Hn)]; [subst stk2; rename stk1 into stk|subst stk1 stk2].
       + destruct stk as [|f r]; [simpl in B1; discriminate B1|].
         pose proof (nok_head _ _ Hn) as Hf. rewrite Hf in *.
         destruct (memN id K) eqn:EK; simpl in *.
-        * destruct (par f && negb (done f) && eval opq (env (set_bad s1)) c); simpl in B1; discriminate B1.
+        * kill B1.
         * assert (Ev : eval opq (env s1) c = eval opq (env s2) c).
           { apply eval_agree with (M := M); [exact He|]. unfold covered in Hcov. simpl in Hcov. try rewrite EK in Hcov. exact Hcov. }
           rewrite Ev. split.
-          -- apply sr_eq. apply nok_cons; [simpl; exact Hf|exact (nok_tail _ _ Hn)].
+          -- apply sr_eq. apply nok_cons; [simpl; auto|exact (nok_tail _ _ Hn)].
           -- destruct (par f && negb (done f) && eval opq (env s2) c); fin EK.
       + rewrite K1, K2 in *.
         destruct (memN id K) eqn:EK; simpl in *.
@@ -239,16 +237,16 @@ Section Sim.
           -- apply sr_k; simpl; auto.
           -- destruct (par f1 && negb (done f1) && eval opq (env s1) c), (par f2 && negb (done f2) && eval opq (env s2) c);
                fin EK.
-        * destruct (par f1 && negb (done f1) && eval opq (env (set_bad s1)) c); simpl in B1; discriminate B1.
+        * kill B1.
     - (* LElse *)
       simpl in *.
       destruct (stkrel_inv _ _ Hstk) as [[E Hn]|(f1 & f2 & r & E1 & E2 & K1 & K2 & Hp & Hn)]; [subst stk2; rename stk1 into stk|subst stk1 stk2].
       + destruct stk as [|f r]; [simpl in B1; discriminate B1|].
         pose proof (nok_head _ _ Hn) as Hf. rewrite Hf in *.
         destruct (memN id K) eqn:EK; simpl in *.
-        * destruct (par f && negb (done f)); simpl in B1; discriminate B1.
+        * kill B1.
         * split.
-          -- apply sr_eq. apply nok_cons; [simpl; exact Hf|exact (nok_tail _ _ Hn)].
+          -- apply sr_eq. apply nok_cons; [simpl; auto|exact (nok_tail _ _ Hn)].
           -- destruct (par f && negb (done f)); fin EK.
       + rewrite K1, K2 in *.
         destruct (memN id K) eqn:EK; simpl in *.
@@ -256,7 +254,7 @@ Section Sim.
           -- apply sr_k; simpl; auto.
           -- destruct (par f1 && negb (done f1)), (par f2 && negb (done f2));
                fin EK.
-        * destruct (par f1 && negb (done f1)); simpl in B1; discriminate B1.
+        * kill B1.
     - (* LEndif *)
       simpl in *.
       destruct (stkrel_inv _ _ Hstk) as [[E Hn]|(f1 & f2 & r & E1 & E2 & K1 & K2 & Hp & Hn)]; [subst stk2; rename stk1 into stk|subst stk1 stk2].
@@ -272,7 +270,7 @@ Section Sim.
         destruct (active stk); unfold strel; simpl; auto. repeat split; auto. apply agree_add. exact He.
       + simpl in *. rewrite K1, K2 in *. simpl in *. split; [exact Hstk|].
         destruct (memN m M) eqn:EM.
-        * destruct (on f1); simpl in B1; discriminate B1.
+        * kill B1.
         * destruct (on f1), (on f2); unfold strel; simpl; repeat split; auto.
           -- apply agree_add. exact He.
           -- apply agree_add_l; assumption.
@@ -285,7 +283,7 @@ Section Sim.
         destruct (active stk); unfold strel; simpl; auto. repeat split; auto. apply agree_del. exact He.
       + simpl in *. rewrite K1, K2 in *. simpl in *. split; [exact Hstk|].
         destruct (memN m M) eqn:EM.
-        * destruct (on f1); simpl in B1; discriminate B1.
+        * kill B1.
         * destruct (on f1), (on f2); unfold strel; simpl; repeat split; auto.
           -- apply agree_del. exact He.
           -- apply agree_del_l; assumption.
@@ -297,7 +295,7 @@ Section Sim.
       + assert (Hk : in_k stk = false) by (destruct stk as [|f r]; [reflexivity|simpl; apply (Hn f); left; reflexivity]).
         rewrite Hk in *. split; [exact Hstk|].
         destruct (active stk); unfold strel; simpl; auto. repeat split; auto. f_equal. exact Ho.
-      + simpl in *. rewrite K1 in B1. destruct (on f1); simpl in B1; discriminate B1.
+      + simpl in *. rewrite K1 in B1. kill B1.
   Qed.
 
   (* ---- a list of lines, both sides *)
@@ -320,7 +318,8 @@ Section Sim.
         + simpl in B1. discriminate B1.
       - assert (Hcr : forall l0, In l0 r -> covered l0) by (intros l0 H0; apply Hcov; right; exact H0).
         destruct (not_include_dec l) as [Hni|[f Hf]].
-        + rewrite run_lines_cons in B1, B2 |- * by exact Hni.
+        + rewrite (run_lines_cons rec_file cur l r stk1 s1 Hni) in B1 |- *.
+          rewrite (run_lines_cons rec_file cur l r stk2 s2 Hni) in B2 |- *.
           assert (B1' : bad (snd (step K M opq cur l stk1 s1)) = false).
           { destruct (bad (snd (step K M opq cur l stk1 s1))) eqn:Eb; [|reflexivity].
             rewrite (run_lines_bad_mono rec_file rec_mono cur r _ _ Eb) in B1. discriminate B1. }
@@ -329,7 +328,7 @@ Section Sim.
             rewrite (run_lines_bad_mono rec_file rec_mono cur r _ _ Eb) in B2. discriminate B2. }
           destruct (step_sim cur l stk1 s1 stk2 s2 Hni (Hcov l (or_introl eq_refl)) Hstk Hst B1' B2') as [Hstk' Hst'].
           apply IH; assumption.
-        + subst l. rewrite run_lines_include in B1, B2 |- *. unfold chk_k in *.
+        + subst l. rewrite !run_lines_include. rewrite run_lines_include in B1, B2. unfold chk_k in *.
           destruct Hst as [Ho [Hs [Ht He]]].
           destruct (stkrel_inv _ _ Hstk) as [[E Hn]|(f1 & f2 & r' & E1 & E2 & K1 & K2 & Hp & Hn)]; [subst stk2; rename stk1 into stk|subst stk1 stk2].
           * assert (Hk : in_k stk = false) by (destruct stk as [|g r']; [reflexivity|simpl; apply (Hn g); left; reflexivity]).
@@ -388,7 +387,7 @@ Theorem confined_sound : forall K opq fs root e1 e2,
   confined K opq fs root e1 e2 = true ->
   filter (not_k K) (branches K opq fs root e1) = filter (not_k K) (branches K opq fs root e2)
   /\ once (run_tu K opq fs root e1) = once (run_tu K opq fs root e2)
-  /\ starved (run_tu K opq fs root e1) = starved (run_tu K opq fs root e2).
+  /\ too_deep (run_tu K opq fs root e1) = too_deep (run_tu K opq fs root e2).
 Proof.
   intros K opq fs root e1 e2 H. unfold confined in H.
   apply andb_prop in H. destruct H as [H B2]. apply andb_prop in H. destruct H as [Ha B1].
